@@ -22,7 +22,7 @@ import os
 import re
 import shlex
 
-from .lifter import (Source, Seg, Edits, LiftError, find_loops, rewrite_tail_continue,
+from .lifter import (Source, Seg, Edits, LiftError, find_loops, rewrite_tail_continue, rewrite_write,
                      rewrite_string_add, rewrite_ctor_fn_value, strip_visibility, rewrite_try, rewrite_format, rewrite_method_shims, annotate_closures, rewrite_closure_tuple_params)
 
 REPO = os.environ.get('VERIF_REPO', '/repo')
@@ -370,6 +370,8 @@ def _body_rewrites(src, ed, lo, hi, loops, blk, log):
     rewrite_closure_tuple_params(src, ed, lo, hi, set(blk.closures.keys()), log)
     if blk.args.get('format') == 'fmt1':
         rewrite_format(src, ed, lo, hi, log)
+    if blk.args.get('write') == 'shim':
+        rewrite_write(src, ed, lo, hi, log)
     if blk.args.get('desugar_try'):
         rewrite_try(src, ed, lo, hi, log)
     _apply_substs(src, ed, blk, log)
@@ -659,6 +661,20 @@ def lift_block(blk, log, meta, canary=False):
     else:
         raise LiftError(f'template: unknown lift kind {kind}')
 
+    if kind != 'item':
+        for m_, txt in blk.proofs:
+            if m_.get('at') == 'before_tail' and 'loop' not in m_:
+                j, lastsemi = lo, None
+                while j < hi:
+                    t = sig[j]
+                    if t.kind == 'p' and t.text in '([{':
+                        j = t.mate + 1
+                        continue
+                    if t.kind == 'p' and t.text == ';':
+                        lastsemi = j
+                    j += 1
+                if lastsemi is not None:
+                    ed.insert(sig[lastsemi].end, ('\n' + txt + '\n') if m_.get('_raw') else ('\nproof {\n' + txt + '\n}\n'), 'proof')
     _body_rewrites(src, ed, lo, hi, loops, blk, log)
     outline_segs = _apply_outlines(src, ed, lo, hi, blk, name, log, canary)
     _apply_loop_contracts(src, ed, [l for l in loops], blk, canary)
@@ -726,7 +742,7 @@ def lift_block(blk, log, meta, canary=False):
     segs.append(Seg('\n', tag='sep'))
     raw = src.text[sig[lo].start:sig[hi - 1].end]
     meta['functions'].append({
-        'kind': kind, 'name': a['fn'], 'as': name, 'impl': a.get('impl') or a.get('trait'),
+        'kind': kind, 'name': a['fn'], 'as': name, 'fn_emitted': block_fn_name(blk), 'impl': a.get('impl') or a.get('trait'),
         'file': src.rel, 'lines': [src.line_of(sig[lo].start), src.line_of(sig[hi - 1].end)],
         'sha256_16': hashlib.sha256(raw.encode()).hexdigest()[:16], 'loops': len(loops),
         'named_clauses': [n for n, _ in blk.requires + blk.ensures if n] +
